@@ -114,14 +114,14 @@ theorem ne_literalString (c : Cfg) (ts : List Tok) : NE e (literalString c ts) :
   ne_auto
 macro_rules | `(tactic| ne_step) => `(tactic| exact ne_literalString ‹Quiet _› _ _)
 
-theorem ne_strVals (ts : List Tok) : NE e (strVals ts) := by
-  fun_induction strVals ts
+theorem ne_strVals (c : Cfg) (ts : List Tok) : NE e (strVals c ts) := by
+  fun_induction strVals c ts
   all_goals ne_auto
 
-theorem ne_stringValues (ts : List Tok) : NE e (stringValues ts) := by
+theorem ne_stringValues (c : Cfg) (ts : List Tok) : NE e (stringValues c ts) := by
   unfold stringValues
-  exact ne_bind (ne_expectSym he _ _) (fun _ => ne_strVals he _)
-macro_rules | `(tactic| ne_step) => `(tactic| exact ne_stringValues ‹Quiet _› _)
+  exact ne_bind (ne_expectSym he _ _) (fun _ => ne_bind (ne_strVals he _ _) (fun _ => ne_bind (ne_expectSym he _ _) (fun _ => ne_pure _)))
+macro_rules | `(tactic| ne_step) => `(tactic| exact ne_stringValues ‹Quiet _› _ _)
 
 theorem ne_objName (ts : List Tok) : NE e (objName ts) := by
   fun_induction objName ts
@@ -240,12 +240,12 @@ theorem literalString_len {c : Cfg} {ts : List Tok} {p : W × List Tok} (h : lit
   unfold literalString at h
   len_auto []
 
-theorem strVals_len : ∀ (ts : List Tok) (p : List W × List Tok), strVals ts = .ok p → p.2.length ≤ ts.length := by
+theorem strVals_len (c : Cfg) : ∀ (ts : List Tok) (p : List W × List Tok), strVals c ts = .ok p → p.2.length ≤ ts.length := by
   intro ts
-  fun_induction strVals ts <;> intro p h
+  fun_induction strVals c ts <;> intro p h
   all_goals (len_auto [])
 
-theorem stringValues_len {ts : List Tok} {p : List W × List Tok} (h : stringValues ts = .ok p) : p.2.length ≤ ts.length := by
+theorem stringValues_len {c : Cfg} {ts : List Tok} {p : List W × List Tok} (h : stringValues c ts = .ok p) : p.2.length ≤ ts.length := by
   unfold stringValues at h
   len_auto [→ expectSym_len, → strVals_len]
 
